@@ -42,6 +42,8 @@ pub struct Replay {
 
 pub struct Rng(pub u64);
 impl Rng { pub fn next(&mut self) -> u64 { self.0 ^= self.0 << 13; self.0 ^= self.0 >> 7; self.0 ^= self.0 << 17; self.0 }
+    pub fn nbytes(&mut self, m: u64) -> Vec<u8> { let n = (self.next() % m) as usize; self.bytes(n) }
+    pub fn nbytes1(&mut self, m: u64) -> Vec<u8> { let n = 1 + (self.next() % m) as usize; self.bytes(n) }
     pub fn bytes(&mut self, n: usize) -> Vec<u8> { (0..n).map(|_| (self.next() >> 24) as u8).collect() } }
 
 pub fn start_block(v: V, players: &[(u8, u8, u8)], /* (port, type, char) */ rng: &mut Rng) -> Vec<u8> {
@@ -57,37 +59,74 @@ pub fn start_block(v: V, players: &[(u8, u8, u8)], /* (port, type, char) */ rng:
     b
 }
 
-pub fn encode(r: &Replay) -> Vec<u8> {
+/// extra trailing bytes appended to known events' payloads (C08 "newer version, longer payloads")
+#[derive(Clone, Copy, Default)]
+pub struct Pad { pub gstart: usize, pub pre: usize, pub post: usize, pub gend: usize, pub fstart: usize, pub item: usize, pub fend: usize }
+fn pad_bytes(n: usize, salt: usize) -> Vec<u8> { (0..n).map(|i| (0xA5usize ^ (i * 7 + salt * 13)) as u8).collect() }
+
+/// the canonical payload-size table
+pub fn table(r: &Replay, pad: &Pad) -> Vec<(u8, u16)> {
     let v = r.v;
     let mut sizes: Vec<(u8, u16)> = vec![
-        (0x36, r.start_block.len() as u16), (0x37, pre_size(v) as u16), (0x38, post_size(v) as u16),
-        (0x39, r.end.as_ref().map_or(gend_size(v), |e| e.len()) as u16)];
-    if gte(v,2,2) { sizes.push((0x3A, fstart_size(v) as u16)); }
-    if gte(v,3,0) { sizes.push((0x3B, item_size(v) as u16)); sizes.push((0x3C, fend_size(v) as u16)); }
+        (0x36, (r.start_block.len() + pad.gstart) as u16), (0x37, (pre_size(v) + pad.pre) as u16), (0x38, (post_size(v) + pad.post) as u16),
+        (0x39, (r.end.as_ref().map_or(gend_size(v), |e| e.len()) + pad.gend) as u16)];
+    if gte(v,2,2) { sizes.push((0x3A, (fstart_size(v) + pad.fstart) as u16)); }
+    if gte(v,3,0) { sizes.push((0x3B, (item_size(v) + pad.item) as u16)); sizes.push((0x3C, (fend_size(v) + pad.fend) as u16)); }
     if let Some((_, actual)) = &r.gecko { sizes.push((0x3D, *actual as u16)); sizes.push((0x10, 516)); }
     sizes.extend(r.extra_payloads.iter().cloned());
+    sizes
+}
+
+/// the events of one frame in the recorder's canonical order, each with its command byte
+pub fn frame_events(r: &Replay, f: &FrameSpec, pad: &Pad) -> Vec<Vec<u8>> {
+    let v = r.v; let mut evs = vec![];
+    let ev = |code: u8, parts: &[&[u8]], p: usize, salt: usize| { let mut e = vec![code]; for x in parts { e.extend_from_slice(x); } e.extend(pad_bytes(p, salt)); e };
+    let id = f.id.to_be_bytes();
+    if gte(v,2,2) { evs.push(ev(0x3A, &[&id, &f.start], pad.fstart, 1)); }
+    for (port, fol, c) in &f.chars { if let Some(c) = c { evs.push(ev(0x37, &[&id, &[*port, *fol as u8], &c.pre], pad.pre, 2)); } }
+    if gte(v,3,0) { for it in &f.items { evs.push(ev(0x3B, &[&id, it], pad.item, 3)); } }
+    for (port, fol, c) in &f.chars { if let Some(c) = c { evs.push(ev(0x38, &[&id, &[*port, *fol as u8], &c.post], pad.post, 4)); } }
+    if gte(v,3,0) { evs.push(ev(0x3C, &[&id, &f.end], pad.fend, 5)); }
+    evs
+}
+
+/// file = header ‖ raw (table, Game Start, Gecko blocks, `body` events, Game End(s), `junk`) ‖ metadata ‖ `}`
+pub fn assemble(r: &Replay, sizes: &[(u8, u16)], body: &[Vec<u8>], junk: &[u8], pad: &Pad) -> Vec<u8> {
     let mut raw = vec![0x35, (sizes.len() * 3 + 1) as u8];
-    for (c, s) in &sizes { raw.push(*c); raw.extend(s.to_be_bytes()); }
-    raw.push(0x36); raw.extend(&r.start_block);
+    for (c, s) in sizes { raw.push(*c); raw.extend(s.to_be_bytes()); }
+    raw.push(0x36); raw.extend(&r.start_block); raw.extend(pad_bytes(pad.gstart, 6));
     if let Some((bytes, actual)) = &r.gecko {
         let mut pos = 0usize; let actual = *actual as usize;
         while pos < actual { raw.push(0x10); raw.extend(&bytes[pos..pos+512]);
             raw.extend(((512.min(actual - pos)) as u16).to_be_bytes()); raw.push(0x3D); pos += 512; raw.push((pos >= actual) as u8); }
     }
-    for f in &r.frames {
-        if gte(v,2,2) { raw.push(0x3A); raw.extend(f.id.to_be_bytes()); raw.extend(&f.start); }
-        for (port, fol, ev) in &f.chars { if let Some(ev) = ev { raw.push(0x37); raw.extend(f.id.to_be_bytes()); raw.push(*port); raw.push(*fol as u8); raw.extend(&ev.pre); } }
-        if gte(v,3,0) { for it in &f.items { raw.push(0x3B); raw.extend(f.id.to_be_bytes()); raw.extend(it); } }
-        for (port, fol, ev) in &f.chars { if let Some(ev) = ev { raw.push(0x38); raw.extend(f.id.to_be_bytes()); raw.push(*port); raw.push(*fol as u8); raw.extend(&ev.post); } }
-        if gte(v,3,0) { raw.push(0x3C); raw.extend(f.id.to_be_bytes()); raw.extend(&f.end); }
-    }
-    if let Some(e) = &r.end { raw.push(0x39); raw.extend(e); if r.double_end { raw.push(0x39); raw.extend(e); } }
+    for e in body { raw.extend(e); }
+    if let Some(e) = &r.end { raw.push(0x39); raw.extend(e); raw.extend(pad_bytes(pad.gend, 7)); if r.double_end { raw.push(0x39); raw.extend(e); raw.extend(pad_bytes(pad.gend, 7)); } }
+    raw.extend(junk);
     let mut out = vec![0x7b, 0x55, 0x03, 0x72, 0x61, 0x77, 0x5b, 0x24, 0x55, 0x23, 0x6c];
     out.extend((raw.len() as u32).to_be_bytes());
     out.extend(raw);
     if let Some(m) = &r.metadata { out.extend([0x55, 0x08, 0x6d, 0x65, 0x74, 0x61, 0x64, 0x61, 0x74, 0x61, 0x7b]); out.extend(m); out.push(0x7d); }
     out.push(0x7d);
     out
+}
+
+pub fn body_events(r: &Replay, pad: &Pad) -> Vec<Vec<u8>> { r.frames.iter().flat_map(|f| frame_events(r, f, pad)).collect() }
+pub fn encode(r: &Replay) -> Vec<u8> { let pad = Pad::default(); assemble(r, &table(r, &pad), &body_events(r, &pad), &[], &pad) }
+pub fn encode_padded(r: &Replay, pad: &Pad) -> Vec<u8> { assemble(r, &table(r, pad), &body_events(r, pad), &[], pad) }
+
+/// occupied character slots of a start block in column order: (port, is_follower)
+pub fn slots_of(start_block: &[u8]) -> Vec<(u8, bool)> {
+    let mut out = vec![];
+    for p in 0..4usize { let o = 0x64 + p * 0x24; if start_block[o + 1] <= 2 { out.push((p as u8, false)); if start_block[o] == 14 { out.push((p as u8, true)); } } }
+    out
+}
+
+/// values that are interesting for 32-bit fields: NaN payloads, infinities, extremes
+pub const DICT: [[u8; 4]; 10] = [[0,0,0,0],[0xff,0xff,0xff,0xff],[0x7f,0xc0,0,1],[0x7f,0x80,0,1],[0x7f,0x80,0,0],[0xff,0x80,0,0],[0x80,0,0,0],[0x7f,0xff,0xff,0xff],[0xff,0xc1,0x23,0x45],[0,0,0,1]];
+pub fn spice(rng: &mut Rng, b: &mut Vec<u8>) {
+    if b.len() < 4 { return; }
+    for _ in 0..(rng.next() % 3) { let i = (rng.next() as usize) % (b.len() - 3); let d = DICT[(rng.next() % 10) as usize]; b[i..i+4].copy_from_slice(&d); }
 }
 
 pub fn simple(v: V, players: &[(u8, u8, u8)], nframes: usize, absent: &[(usize, usize)], rng: &mut Rng) -> Replay {
@@ -100,7 +139,7 @@ pub fn simple(v: V, players: &[(u8, u8, u8)], nframes: usize, absent: &[(usize, 
         if gte(v,2,2) { f.start = rng.bytes(fstart_size(v) - 4); }
         for (ci, &(port, fol)) in chars_tpl.iter().enumerate() {
             let present = !absent.contains(&(i, ci));
-            f.chars.push((port, fol, present.then(|| CharEv { pre: rng.bytes(pre_size(v) - 6), post: rng.bytes(post_size(v) - 6) })));
+            f.chars.push((port, fol, present.then(|| { let mut pre = rng.bytes(pre_size(v) - 6); let mut post = rng.bytes(post_size(v) - 6); spice(rng, &mut pre); spice(rng, &mut post); CharEv { pre, post } })));
         }
         if gte(v,3,0) { let n = (rng.next() % 3) as usize; for _ in 0..n { f.items.push(rng.bytes(item_size(v) - 4)); } f.end = rng.bytes(fend_size(v) - 4); }
         frames.push(f);
